@@ -31,6 +31,18 @@ meta = {
     'detected': any(v['exit'] == 1 for p, v in res.get('fired', {}).items()),
     'detected_by_target_property': res.get('fired', {}).get(prop, {}).get('exit') == 1,
 }
+try:
+    prev = json.load(open(os.path.join(dst, 'meta.json')))
+except (OSError, ValueError):
+    prev = {}
+# what the checks said when the change was first evaluated (kept across re-evaluations)
+meta['first_result'] = prev.get('first_result') or (
+    'caught by the target property' if meta['detected_by_target_property'] else
+    ('caught by another property only: ' + ', '.join(sorted(meta['checks_that_fire'])) if meta['detected']
+     else ('analysis error only (exit 2): ' + ', '.join(sorted(meta['checks_with_analysis_error']))
+           if meta['checks_with_analysis_error'] else 'MISSED')))
+if prev.get('strengthened'):
+    meta['strengthened'] = prev['strengthened']
 json.dump(meta, open(os.path.join(dst, 'meta.json'), 'w'), indent=1)
 print(json.dumps({k: meta[k] for k in ('id', 'detected', 'detected_by_target_property', 'checks_that_fire',
                                        'checks_with_analysis_error')}, indent=1))
